@@ -1586,3 +1586,109 @@ Proof.
   - cbn [exec] in E. unfold quiet1 in E. inv_bind E. inversion E; subst.
     rewrite with_obs_quiet. eapply good_apply_to; eassumption.
 Qed.
+
+(* ================================================================== *)
+(* Part 4. Traces from RawNode::new                                     *)
+(* ================================================================== *)
+Lemma raft_new_shape c st sa dr r :
+  raft_new c st sa dr = Ok (inr r) -> SInv st ->
+  unst (r_log r) = u_new (next_of st)
+  /\ max_apply_unpersisted_log_limit (r_log r) = 0
+  /\ applied (r_log r) = (if 0 <? c_applied c then c_applied c else first_of st - 1).
+Proof.
+  unfold raft_new. intros H Hs.
+  destruct (negb (cfg_validate c)); [discriminate|].
+  apply bind_ok in H. destruct H as (l & Hl & H).
+  assert (Hl0 : unst l = u_new (next_of st) /\ applied l = first_of st - 1).
+  { unfold log_new, storage_first_index in Hl. rewrite (first_index_ok _ Hs) in Hl. cbn [bind] in Hl.
+    destruct (first_of st =? 0); [discriminate|]. inversion Hl; subst l. cbn [unst applied].
+    rewrite (storage_last_next _ Hs). pose proof (first_pos _ Hs). pose proof (first_le_next st).
+    split; [f_equal; lia|reflexivity]. }
+  destruct Hl0 as [Hu Ha].
+  destruct (ConfChange.restore empty_tracker (cs st)) as [[c' ids']|e]; [|discriminate].
+  rewrite post_conf_change_nonleader in H by reflexivity. cbn [bind] in H.
+  match type of H with (if ?c then _ else _) = _ => destruct c end; [discriminate|].
+  apply bind_ok in H. destruct H as (r3 & H3 & H).
+  apply bind_ok in H. destruct H as (r4 & H4 & H).
+  apply bind_ok in H. destruct H as (r5 & H5 & H).
+  apply bind_ok in H. destruct H as (lt & _ & H). inversion H; subst r. clear H.
+  assert (E3 : unst (r_log r3) = u_new (next_of st) /\ applied (r_log r3) = first_of st - 1
+               /\ is_leader r3 = false).
+  { destruct (hs_eqb (hs st) hs_default); [inversion H3; subst r3; cbn; auto|].
+    unfold load_state in H3.
+    match type of H3 with (if ?c then _ else _) = _ => destruct c end; [discriminate|].
+    inversion H3; subst r3. cbn. auto. }
+  destruct E3 as (E3u & E3a & E3l).
+  assert (E4 : unst (r_log r4) = u_new (next_of st)
+               /\ applied (r_log r4) = (if 0 <? c_applied c then c_applied c else first_of st - 1)).
+  { destruct (0 <? c_applied c); [|inversion H4; subst r4; auto].
+    unfold commit_apply_internal in H4. cbn [negb] in H4.
+    destruct (c_applied c =? 0); [discriminate|]. cbn [bind] in H4.
+    change (is_leader (r3 <| r_log := applied_to_unchecked (r_log r3) (c_applied c) |>))
+      with (is_leader r3) in H4.
+    rewrite E3l, andb_false_r in H4. inversion H4; subst r4. cbn. auto. }
+  destruct E4 as (E4u & E4a).
+  rewrite (become_follower_log _ _ _ _ H5). cbn. auto.
+Qed.
+
+(* what the contract asks of the start: a well-formed store, Config.applied not below the
+   store's snapshot point and not beyond the commit index the node starts with *)
+Definition init_ok (c : config) (st : MemStorage.mem) (n0 : rawnode) : Prop :=
+  SInv st /\ trig_log st = false
+  /\ first_of st - 1 <= c_applied c
+  /\ c_applied c <= committed (nlog n0).
+
+Definition init_app (c : config) (st : MemStorage.mem) : appstate :=
+  mkApp st Idle (c_applied c, []) (c_applied c) false.
+
+Theorem init_good c st sa dr n0 :
+  rn_new c st sa dr = Ok (inr n0) -> init_ok c st n0 -> Good (init_app c st) n0.
+Proof.
+  intros H (Hs & Hq & Hf & Hcm).
+  destruct (rn_new_pres _ _ _ _ _ H Hs Hq) as (A & _ & Hst).
+  pose proof (rn_new_RnInv _ _ _ _ _ H) as HR. pose proof (handout_init _ _ _ _ _ H) as HH.
+  unfold rn_new in H. destruct (c_id c =? 0); [discriminate|].
+  inv_bind H. destruct x as [e|r]; inversion H; subst n0. clear H.
+  destruct (raft_new_shape _ _ _ _ _ Hx Hs) as (Eu & El & Ea).
+  unfold nlog in *. cbn [rn_raft] in *.
+  assert (Eap : applied (r_log r) = c_applied c).
+  { rewrite Ea. destruct (0 <? c_applied c) eqn:E0; [reflexivity|]. pose proof (first_pos _ Hs). lia. }
+  assert (HF : RepInv false (r_log r)).
+  { apply RepInv_close_window; [exact A|]. lia. }
+  pose proof (RepInv_committed_le_last false _ HF) as Hcl. pose proof (RepInv_last_bound false _ HF) as Hlb.
+  assert (Hoff : c_applied c < u_offset (unst (r_log r))).
+  { pose proof (ll_last_upper false _ HF) as Hup. rewrite <- (abs_last false _ HF) in Hup.
+    rewrite Eu in *. cbn [u_new u_offset u_entries length] in *. lia. }
+  constructor; cbn [init_app a_store a_phase a_hist a_applied a_got]; unfold nlog, recs_done; cbn.
+  - split; [exact HR|]. split; [exact HF|]. unfold CsiOK. cbn. lia.
+  - symmetry. exact Hst.
+  - exact HH.
+  - symmetry. exact Eap.
+  - lia.
+  - exact Hcm.
+  - exact Hoff.
+  - exact El.
+  - rewrite Hst. lia.
+  - rewrite Eu. cbn. intros s C. discriminate.
+  - discriminate.
+  - intros rr i t [].
+  - exact I.
+Qed.
+
+(* contract-abiding traces: the application follows the contract w.r.t. its ghost state, the
+   stepped messages are peer messages, the indexes keep their u64 head-room *)
+Inductive crun : appstate -> rawnode -> appstate -> rawnode -> Prop :=
+| crun_nil a n : crun a n a n
+| crun_cons a n o n1 ot a1 a' n' :
+    app_next a n o ot a1 -> peer_ok o -> idx_margin n o -> exec n o = Ok (n1, ot) ->
+    crun a1 n1 a' n' -> crun a n a' n'.
+
+Theorem crun_good a n a' n' : crun a n a' n' -> Good a n -> Good a' n'.
+Proof.
+  intros R. induction R as [|a n o n1 ot a1 a' n' Hn Hp Hm E R IH]; intros G; [exact G|].
+  apply IH. eapply contract_step; eassumption.
+Qed.
+
+Theorem contract_trace c st sa dr n0 a n :
+  rn_new c st sa dr = Ok (inr n0) -> init_ok c st n0 -> crun (init_app c st) n0 a n -> Good a n.
+Proof. intros H Hi R. eapply crun_good; [exact R|]. eapply init_good; eassumption. Qed.
